@@ -65,6 +65,7 @@ type Resp struct {
 	Steps      int      // instructions executed
 	Blocked    bool     // TERMINATE was set when the request arrived
 	Ends       string   // "" | graceful | abnormal
+	Croaked    bool     // a CROAK was taken during this request
 }
 
 func NewVM(a *app.App, persisted bool) *VM {
@@ -470,7 +471,13 @@ func (v *VM) exec(in codec.Ins, input []byte, r *Resp) (stop, string) {
 		if v.Flags[in.N] != in.Mode {
 			return goOn, ""
 		}
-		return undefined, "taken CROAK (handled by the C06/C20 oracles directly)"
+		// abandon the pending bytecode; the out-of-code rule then terminates the session or, while
+		// input is being handled, goes to the catch node. What happens to the symbol cache is not
+		// documented: callers that compare caches must stop at r.Croaked.
+		v.Pending = nil
+		v.clearPage()
+		r.Croaked = true
+		return goOn, ""
 	case codec.MOUT:
 		v.menu = append(v.menu, [2]string{in.Sel, in.Sym})
 	case codec.MNEXT:
